@@ -30,6 +30,7 @@ PROP = {
         "bit operations of the Go code are modelled arithmetically (mod/div); the tie is the hook differential, not the translator (no secs1 function fits its subset); constants are translated and bridged",
         "one assembler state per connection generation: after a line drop + reconnect the model restarts from astate0 (no partial message, no duplicate record survives); the e2e pass checks this with sequences that span a TCP drop, in all four role/mode combinations",
         "character-level receive model (Secs1/RecvStream.v): a Ch is a character arriving less than T1 after the previous one, a Silence is the line staying quiet until the timer the receiver is blocked on expires (T2 for the length character, T1 inside a block and while draining); the unit pass drives the real readByte/receiveBlock/drainUntilSilence with the harness's copy of lineEngine's idle loop over a scripted conn in virtual time",
+        "the error classification of lineEngine's idle-line branch (which receiveBlock errors keep the line up) is inline code behind a wall-clock lineIO built inside the engine: it is exercised by the e2e pass only (every receiveBlock error class on the idle line of a real connection, all four role/mode combinations, each followed by a valid message on the same line session); the virtual-time unit pass drives readByte/receiveBlock/drain with the harness's copy of the idle loop",
         "deliverFrame (rt.DeliverOwnedFrame) is outside the model: a delivery is the frame handed to it",
     ],
 }
